@@ -49,7 +49,7 @@ def cdOps (op : String) : Option (P String) :=
       let g := P.grad s
       let sc := " ".intercalate (List.ofFn (fun j => fmtE (P.score fp s (g j) j)))
       pure (sc ++ " " ++ fmt (P.interceptOpt s) ++ " " ++ fmtE (P.stopCrit fp s) ++ " " ++
-            toString (P.wsSize p0 s))
+            "i" ++ toString (P.wsSize p0 s))
   | "cd_scores_ws" => some do   -- stop_crit_in over a working set
       let ⟨n, p, P⟩ ← pProb; let s ← pState n p; let fp ← pBool; let ws ← pWs p
       let g := P.grad s
